@@ -58,7 +58,7 @@ PROPS["C13"] = {
     "nontrivial_min_tokens": 30,
 }
 PROPS["C14"] = {
-    "level_text": "Theorems: every PQ/IVFPQ hit carries sqrt(sum_m table_m[code_m]) for the (residual) query tables and the answer is the exact top-k by that score; every stored code byte names the FIRST codeword at minimal squared distance from the (residual) subvector (mod 256, as uint8): none strictly nearer, every earlier one strictly farther; tied to the code bit-for-bit incl. training (k-means re-run in the model) and structurally (codes and codebooks dumped and re-checked every run).",
+    "level_text": "Theorems: every PQ/IVFPQ hit carries sqrt(sum_m table_m[code_m]) for the (residual) query tables and the answer is the exact top-k by that score; every stored code byte names the FIRST codeword at minimal squared distance from the (residual) subvector (mod 256, as uint8): none strictly nearer, every earlier one strictly farther; tied to the code bit-for-bit incl. training (k-means re-run in the model) and structurally (codes and codebooks dumped and re-checked every run). For IVFPQ searches with fewer probes than cells every hit must lie in one of the p cells nearest to the query, evaluated on the implementation's own centroids and lists (probe_soundb).",
     "level_note": "Trusted: as C02. The real-number reading (score = distance to the reconstruction; error <= quantisation error) is not machine-checked (partial). nbits>8 and IVFPQ.Train with n<2^nbits are known findings exercised separately.",
     "correspondence": "pq_index*.go, ivfpq_index*.go ~ Model.VecIndex (KPQ, KIVFPQ)",
     "nontrivial_min_tokens": 30,
@@ -119,7 +119,7 @@ PROPS["C10"] = dict(PROPS["C08"], level_text="Crash images are taken by a verif 
 PROPS["C10"]["correspondence"] = "storage.go flush/compaction + storage_segment.go getIndex + storage_provider.go ~ Model.Store (load_segment, open_store)"
 
 PROPS["C17"] = {
-    "level_text": "Theorem over EVERY interleaving of O_EXCL lock attempts, directory scans (succeeding or failing), close-flag test-and-sets, lock releases and uses by any number of handles (goroutines or processes): the LOCK file exists exactly while one handle owns the directory, never two owners; busy open has no effect, a failed scan leaves no lock, Close releases, a second Close errors without effect, use after Close fails, reopen after Close succeeds. The protocol model is tied to storage_provider.go/storage.go by sequences and 2..8-goroutine races of Open/Close/use/failed Open and opens from a second process, with return codes and LOCK-file existence as observables. Close racing Close (2..6 goroutines on one handle, with concurrent operations): exactly one nil, the others the closed error, no panic, lock released.",
+    "level_text": "Theorem over EVERY interleaving of O_EXCL lock attempts, directory scans (succeeding or failing), close-flag test-and-sets, lock releases and uses by any number of handles (goroutines or processes): the LOCK file exists exactly while one handle owns the directory, never two owners; busy open has no effect, a failed scan leaves no lock, Close releases, a second Close errors without effect, use after Close fails, reopen after Close succeeds. The protocol model is tied to storage_provider.go/storage.go by sequences and 2..8-goroutine races of Open/Close/use/failed Open and opens from a second process, with return codes and LOCK-file existence as observables. Close racing Close (2..6 goroutines on one handle, with concurrent operations): exactly one nil, the others the closed error, no panic, lock released. Opens with corner configurations (zero / negative / huge thresholds and limits, templates present or missing) are part of every history: whether or not the implementation refuses them, a refusal must leave ownership exactly as it was (checker op 10).",
     "level_note": "Trusted: Coq kernel, extraction, harness; O_CREATE|O_EXCL is atomic (file system). A failing directory scan cannot be provoked as root in this sandbox, so it is injected through the verifFault hook at both scans (initSegmentCounter, listSegments); the other failed open exercised is an unusable base path.",
     "correspondence": "storage_provider.go acquireLock/releaseLock + storage.go Open/Close ~ Model.Lock",
     "nontrivial_min_tokens": 12,
@@ -133,7 +133,7 @@ PROPS["C12"] = {
 }
 
 PROPS["C20"] = {
-    "level_text": "Theorems for every input: k-means returns exactly min(k,n) centroids, one in-range assignment per vector, nil iff nothing to cluster, first-arg-min indices valid, determinism (a function); quantisers preserve length, int8 refuses to work untrained. The bit-exact transcriptions of clustering.go (stride initialisation, first arg-min, single-pass update, empty clusters keep their centroid, maxIter) and quantizer.go (binary16 rounding via SpecFloat at (11,16), math.Round half away from zero, scale by absMax) are compared with the code on training sets with duplicates, k>n, k=n, collinear data and boundary values; input immutability, run-to-run determinism and 'trained twice => search-identical' are observed on the implementation; finiteness, bounding box (Euclidean family) and the absMax/254 bound are evaluated on the implementation's outputs by the extracted oracle. The float16 clause is PROVED for every float32 in the binary16 normal range (the round trip is the round-to-nearest-even binary16 value, |deq(q x) - x| <= 2^-11 |x| over the reals; through the Flocq bridge) and is also a run-time oracle on the implementation's outputs (every binade, binade boundaries and rounding ties generated). The int8 clause is PROVED as well: for every finite float32 x with |x| <= absMax the code lies in [-127,127] and |deq(q x) - x| <= absMax/254 + absMax*2^-21 + 2^-149 over the reals (Proofs/Int8P.v: Flocq's Bdiv/Bmult correctness for the four float32 operations, one half-away rounding, one exact conversion), lifted to whole vectors through q8/dq8.",
+    "level_text": "Theorems for every input: k-means returns exactly min(k,n) centroids, one in-range assignment per vector, nil iff nothing to cluster, first-arg-min indices valid, determinism (a function); quantisers preserve length, int8 refuses to work untrained. The bit-exact transcriptions of clustering.go (stride initialisation, first arg-min, single-pass update, empty clusters keep their centroid, maxIter) and quantizer.go (binary16 rounding via SpecFloat at (11,16), math.Round half away from zero, scale by absMax) are compared with the code on training sets with duplicates, k>n, k=n, collinear data and boundary values; input immutability, run-to-run determinism and 'trained twice => search-identical' are observed on the implementation; finiteness, bounding box (Euclidean family) and the absMax/254 bound are evaluated on the implementation's outputs by the extracted oracle. The float16 clause is PROVED for every float32 in the binary16 normal range (the round trip is the round-to-nearest-even binary16 value, |deq(q x) - x| <= 2^-11 |x| over the reals; through the Flocq bridge) and is also a run-time oracle on the implementation's outputs (every binade, binade boundaries and rounding ties generated). The int8 clause is PROVED as well: for every finite float32 x with |x| <= absMax the code lies in [-127,127] and |deq(q x) - x| <= absMax/254 + absMax*2^-21 + 2^-149 over the reals (Proofs/Int8P.v: Flocq's Bdiv/Bmult correctness for the four float32 operations, one half-away rounding, one exact conversion), lifted to whole vectors through q8/dq8. A k-means run that answers the same when one more iteration is allowed has settled; every vector must then sit with its first nearest centroid, evaluated on the implementation's own centroids (the run-time counterpart of C20_converged_assignment_is_nearest).",
     "level_note": "Trusted: as C02 plus x448/float16 = IEEE round-to-nearest-even (exercised on boundary values). The float16 and int8 bounds are proved through Flocq (stdlib real-number axioms, named in trusted_base); the k-means bounding box is checked per run on outputs, not proved over floats (partial).",
     "correspondence": "clustering.go ~ Model.KMeans; quantizer.go ~ Model.Quantizer",
     "nontrivial_min_tokens": 12,
@@ -150,7 +150,7 @@ PROPS["C15"] = {
 }
 
 PROPS["C11"] = {
-    "level_text": "Proved over ALL schedules: the two-phase soft-delete Remove / one-step Add, Search, Flush protocol shared by every vector index and BM25 is visibility-linearizable (a search returns every id added before it whose removal had not begun, nothing never added, nothing whose removal took effect), and the repaired memtable queue never reports a frozen memtable (the original is refuted with the schedule pick; rotate; write). Tied to the code and extended to what no Gallina model can exhibit by a harness built with the Go race detector: 2..16 goroutines of Add / Remove / search / Flush / WriteTo (and rotation, background flush, TriggerCompaction, Close for the store) on one shared instance of each of the five vector kinds, BM25, metadata, hybrid and the store, with logical begin/end times per operation; the recorded executions are judged by the extracted visibility oracle, any race report, panic, watchdog timeout (deadlock) or spurious failure fails the check; plus the targeted schedule at the verif yield point between picking the active memtable and writing to it, and uniqueness of automatically generated ids across goroutines and instances. A contended phase releases 16 goroutines together on the same id (remove / re-add / search) with a per-round watchdog; judged for termination and panics only.",
+    "level_text": "Proved over ALL schedules: the two-phase soft-delete Remove / one-step Add, Search, Flush protocol shared by every vector index and BM25 is visibility-linearizable (a search returns every id added before it whose removal had not begun, nothing never added, nothing whose removal took effect), and the repaired memtable queue never reports a frozen memtable (the original is refuted with the schedule pick; rotate; write). Tied to the code and extended to what no Gallina model can exhibit by a harness built with the Go race detector: 2..16 goroutines of Add / Remove / search / Flush / WriteTo (and rotation, background flush, TriggerCompaction, Close for the store) on one shared instance of each of the five vector kinds, BM25, metadata, hybrid and the store, with logical begin/end times per operation; the recorded executions are judged by the extracted visibility oracle, any race report, panic, watchdog timeout (deadlock) or spurious failure fails the check; plus the targeted schedule at the verif yield point between picking the active memtable and writing to it, and uniqueness of automatically generated ids across goroutines and instances. A contended phase releases 16 goroutines together on the same id (remove / re-add / search) with a per-round watchdog; judged for termination and panics only. Targeted shutdown schedules: Close is started while a compaction (files written, segments not yet swapped) or a background flush is held at a hook point; Close must return. A global progress watchdog (no recorded operation for 240 s) turns any hang of the implementation into a reported failure with the goroutine dump, for every property's harness.",
     "level_note": "PARTIAL by nature: data races, runtime panics and real deadlocks are runtime facts; the race detector and a watchdog only SEARCH for them (sampled schedules). The store's visibility run avoids flushes (segment loads overwrite the shared templates: known finding C08/1); the flush/compaction run checks races, panics, deadlocks and spurious failures only.",
     "correspondence": "lock-protected sections of *_index.go, hybrid_search_index.go, storage*.go ~ Model.Conc steps (observed through recorded executions)",
     "race": True, "nontrivial_min_tokens": 8, "sub_max_len": 4000, "gen_timeout": 900,
